@@ -1018,3 +1018,43 @@ Example C16_nonvacuous_fftfreq :
   [0%Q; (2 # 5)%Q; (4 # 5)%Q; (-4 # 5)%Q; (-2 # 5)%Q] /\
   map (map Qred) (C16K.ramp_phases 2 3 (1 # 2) 3) = [[0%Q; (-1)%Q; 1%Q]; [(1 # 4)%Q; (-3 # 4)%Q; (5 # 4)%Q]].
 Proof. exact C16k_fftfreq_example. Qed.
+
+(* ============================================================================== round 5
+   (used by the translator tie coq/gen_proofs/C16_Gen*.v; stated here for every ring / list) *)
+From QV.lib Require Import C16_TieLib.
+From QV.proof Require Import C16_Proofs_Tie.
+
+(* index_add_ is LINEAR in the values: scattering real and imaginary parts separately (sum_patches does, with the same
+   indices) and recombining them is scattering the complex values; every index list (repeats), every c *)
+Theorem C16_scatter_linear :
+  forall (R : Type) (rO rI : R) (radd rmul rsub : R -> R -> R) (ropp : R -> R),
+  ring_theory rO rI radd rmul rsub ropp eq ->
+  forall (c : R) (idx : list nat) (re im : list R) (n : nat),
+  length re = length im ->
+  scatter rO radd idx (zipw (fun a b : R => radd a (rmul c b)) re im) n
+  = radd (scatter rO radd idx re n) (rmul c (scatter rO radd idx im n)).
+Proof. exact scatter_linear. Qed.
+Print Assumptions C16_scatter_linear.
+
+(* ANY product of exponentials of a character (factors multiplied in or skipped by their guards) is one exponential of the
+   summed phase and has unit modulus: a kernel built that way cannot change the total intensity *)
+Theorem C16_exponential_product :
+  forall (R : Type) (rO rI : R) (radd rmul rsub : R -> R -> R) (ropp : R -> R),
+  ring_theory rO rI radd rmul rsub ropp eq ->
+  forall (conj : R -> R) (P : Type) (pO pI : P) (padd pmul psub : P -> P -> P) (popp : P -> P),
+  ring_theory pO pI padd pmul psub popp eq ->
+  forall E : P -> R,
+  (forall a b : P, E (padd a b) = rmul (E a) (E b)) -> E pO = rI -> (forall a : P, conj (E a) = E (popp a)) ->
+  forall l : list (bool * P), abs2 rmul conj (eprod rI rmul E l) = rI.
+Proof. exact @eprod_unit. Qed.
+Print Assumptions C16_exponential_product.
+
+Example C16_nonvacuous_scatter_linear : forall a b c d e f : Z,
+  scatter 0%Z Z.add [1; 0; 1]%nat (zipw (fun x y => (x + 5 * y)%Z) [a; b; c] [d; e; f]) 1%nat
+  = (scatter 0%Z Z.add [1; 0; 1]%nat [a; b; c] 1%nat + 5 * scatter 0%Z Z.add [1; 0; 1]%nat [d; e; f] 1%nat)%Z
+  /\ scatter 0%Z Z.add [1; 0; 1]%nat [a; b; c] 1%nat = (a + c)%Z.
+Proof. intros. split; cbv -[Z.add Z.mul]; ring. Qed.
+
+Example C16_nonvacuous_exponential_product :
+  eprod c1 cmul EZ [(true, 1%Z); (false, 1%Z); (true, 2%Z)] = EZ 3 /\ EZ 3 <> c1.
+Proof. split; [vm_compute; reflexivity | vm_compute; discriminate]. Qed.
